@@ -467,8 +467,8 @@ func genC13(t *rapid.T) C13Case {
 
 func TestC13(t *testing.T) {
 	RunProperty(t, Property[C13Case]{
-		ID: "C13",
-		Rule: "two kinds of generated cases. lifetime (80%): an Open or Create is made to fail after the descriptor was obtained (empty file, every truncation of a valid header, mutated / corrupt header bytes, body shorter than the header says, Create whose Truncate fails on a read-only descriptor, Create on an existing file) or succeeds (healthy); with the garbage collector disabled (so a finalizer cannot hide a leak) the harness counts /proc/self/fd links to the path, tries flock(LOCK_EX|LOCK_NB) on a fresh descriptor and opens the repaired path with a deadline; for healthy handles the probe must be refused while the handle lives, a second default Open must not return before Close, and both must succeed afterwards. sessions (20%): 2-8 concurrent open -> read counter -> generated yield -> stamp all 1200 slots (4 pages) with counter+1 -> Sync -> Close sessions x 1-6 rounds, as goroutines or as separate processes, with 0-3 readers fetching the whole archive in a loop; oracle: no session error, final counter == number of sessions, every reader fetch shows a single generation. Non-trivial: lifetime cases where the file exists after the call; session rounds in which >=2 sessions overlapped in time (measured). Every session round counts as distinct (its schedule is not reproducible).",
+		ID:          "C13",
+		Rule:        "two kinds of generated cases. lifetime (80%): an Open or Create is made to fail after the descriptor was obtained (empty file, every truncation of a valid header, mutated / corrupt header bytes, body shorter than the header says, Create whose Truncate fails on a read-only descriptor, Create on an existing file) or succeeds (healthy); with the garbage collector disabled (so a finalizer cannot hide a leak) the harness counts /proc/self/fd links to the path, tries flock(LOCK_EX|LOCK_NB) on a fresh descriptor and opens the repaired path with a deadline; for healthy handles the probe must be refused while the handle lives, a second default Open must not return before Close, and both must succeed afterwards. sessions (20%): 2-8 concurrent open -> read counter -> generated yield -> stamp all 1200 slots (4 pages) with counter+1 -> Sync -> Close sessions x 1-6 rounds, as goroutines or as separate processes, with 0-3 readers fetching the whole archive in a loop; oracle: no session error, final counter == number of sessions, every reader fetch shows a single generation. Non-trivial: lifetime cases where the file exists after the call; session rounds in which >=2 sessions overlapped in time (measured). Every session round counts as distinct (its schedule is not reproducible).",
 		Assumptions: []string{"OS scheduling is not controlled: the session part is randomized stress, not an enumeration of interleavings", "flock semantics of the Linux kernel"},
 		Gen:         genC13,
 		Run:         runC13,
